@@ -1370,6 +1370,27 @@ class Run:
             keep = [x for x in d.values()][: a1 % 2]
             for x in keep:
                 new[x.key] = x
+            if any(k in d and d[k] is not v for k, v in new.items()):
+                # another object under a key the collection already holds.  With a reverse side (O.g) the assignment is refused half
+                # way through: the outgoing member's reverse-side bookkeeping asks the *incoming* dict to drop it, and KeyFuncDict.remove
+                # raises InvalidRequestError where list / set collections raise the ValueError / KeyError that
+                # _CollectionAttributeImpl.pop() swallows.  What the objects look like afterwards is unspecified, so only the check that
+                # owns the verdict (C37) generates it, and the history ends there.
+                for v in new.values():
+                    if v not in keep:
+                        self.by_id[id(v)]["retired"] = True
+                if "C37" not in self.case.get("stop_on", ()) or OS.state_of(go) != "persistent":
+                    return "skip"
+                try:
+                    go.opts = new
+                except self.m["exc"].InvalidRequestError as ex:
+                    if "Can not remove" not in str(ex):
+                        raise
+                    self.V("C37", "dict_replace_same_key_refused", "G.opts = {key: new object} over a loaded dict collection that holds another "
+                           "object under that key raised InvalidRequestError 'Can not remove ...: collection holds ... for key' "
+                           "(the reverse side O.g asks the incoming dict to drop the outgoing member)")
+                    return "refused"
+                return "%d.opts replace(same key)" % g["label"]
             go.opts = new
             what = "replace"
         else:
@@ -2088,6 +2109,7 @@ class Run:
         an = names[a2 % len(names)]
         keep = {x: OS.loaded(o, x)[1] for x in self.U["scal"][e["cls"]] if x != an and OS.loaded(o, x)[0] and insp.attrs[x].history.has_changes()}
         self.session.expire(o, [an])
+        self.loaded_before_set.pop((e["label"], an), None)       # a later set no longer knows the previous value
         if OS.loaded(o, an)[0]:
             self.V("C46", "attribute_not_expired", "expire(obj, [%r]) left the attribute loaded" % an)
         for x, v in keep.items():
@@ -3416,8 +3438,8 @@ class Run:
             if not self.in_session(o):
                 continue
             key = self.m["inspect"](o).key
-            if key is None:
-                continue
+            if key is None or OS.state_of(o) == "deleted":
+                continue       # (flushed DELETE, transaction open: out of the identity map; a new object may already stand for the key)
             if key in seen and seen[key] is not o:
                 self.V("C34", "two_objects_one_identity", "two live objects in the session share identity %s after %s" % (key[1:2], kind), op=i)
             seen[key] = o
